@@ -20,6 +20,7 @@ type AtCall struct {
 	Ord    int
 	Cl     Clause
 	Assume bool // environment assumption (listed in the evidence) instead of an obligation
+	SetVar string // set-at-call: the ghost variable that receives the value of Cl at this point
 }
 
 type Clause struct {
@@ -30,8 +31,9 @@ type Clause struct {
 }
 
 type LoopSpec struct {
-	Inv  []Clause
-	Decr *Clause
+	Inv   []Clause
+	Entry []Clause // asserted when the loop is reached, not part of the invariant
+	Decr  *Clause
 }
 
 type GhostFunc struct {
@@ -559,6 +561,8 @@ func (sp *Specs) loadSpecFile(path, pkgPrefix string, assumed bool) error {
 				ls.Inv = append(ls.Inv, cl)
 			case "decreases":
 				ls.Decr = &cl
+			case "entry":
+				ls.Entry = append(ls.Entry, cl)
 			default:
 				return fmt.Errorf("%s:%d: loop clause %q", path, l.ln, f[1])
 			}
@@ -730,7 +734,7 @@ func (sp *Specs) loadSpecFile(path, pkgPrefix string, assumed bool) error {
 			}
 			g.Cond = cl
 			cur.Gates = append(cur.Gates, g)
-		case "at-call", "env-at-call":
+		case "at-call", "env-at-call", "set-at-call":
 			if cur == nil {
 				return fmt.Errorf("%s:%d: clause outside func", path, l.ln)
 			}
@@ -743,7 +747,16 @@ func (sp *Specs) loadSpecFile(path, pkgPrefix string, assumed bool) error {
 				ac.Callee = f[0][:i]
 				ac.Ord, _ = strconv.Atoi(f[0][i+1:])
 			}
-			cl, err := mkClause(strings.TrimSpace(f[1]), l.ln)
+			body := strings.TrimSpace(f[1])
+			if word == "set-at-call" {
+				j := strings.Index(body, "=")
+				if j < 0 {
+					return fmt.Errorf("%s:%d: set-at-call Callee[#k] ghostvar = expr", path, l.ln)
+				}
+				ac.SetVar = strings.TrimSpace(body[:j])
+				body = strings.TrimSpace(body[j+1:])
+			}
+			cl, err := mkClause(body, l.ln)
 			if err != nil {
 				return err
 			}
